@@ -6,7 +6,7 @@ import re
 import shutil
 from vflib import core, mfrontlib
 from checks import mfrontbuild
-from vflib.core import Broken, finish, validate_trace
+from vflib.core import Broken, finish, validate_trace, binding_selftest
 
 INPUTS = [("VfYoung.mfront", "c"), ("VfMP.mfront", "generic"), ("VfProbe.mfront", "generic"), ("VfMPLog.mfront", "c"),
           # the octave interface registers a specific target whose command contains double quotes (escaped in the file)
@@ -131,6 +131,10 @@ def run(ctx):
         v = validate_trace(ctx, "mfront/RegistryTrace", "RegistryTrace.cfg", ev, name="reg", dfs=True)
         ntr += 1
         nev += len(ev)
+        if hi == 0 and v["accepted"]:
+            def lose_an_item(e):
+                e[-1]["items"] = e[-1]["items"][1:]
+            binding_selftest(ctx, "mfront/RegistryTrace", "RegistryTrace.cfg", ev, lose_an_item, "a clean history whose last registry lost one item", dfs=True)
         if hi == 2:
             samples = [{k: (x[k] if k != "items" else x[k][:3]) for k in x} for x in ev]
         if not v["accepted"]:
